@@ -385,7 +385,11 @@ SK_SWITCH_KEYIDX = {
     "sig": "fn switch_key_indices(dsz: usize, ksz: usize, plan: &mut Vec<usize>)",
     "handles": ["encrypted.parms_id()", SKP, SKP + ".parms()", KCDS, KCDS + ".parms()", KCDS + ".parms().coeff_modulus()"],
     "exprs": {SKP + ".parms().coeff_modulus().len()": "dsz", KCDS + ".parms().coeff_modulus().len()": "ksz"},
-    "effects": {}}
+    "effects": {},
+    # (all optional: which top-level `let`s are pulled in depends on what the two statements mention; a variant that does not look at the key level at all is
+    #  then TRANSLATED - and breaks the equality theorem - instead of only failing loudly)
+    "optional": ["encrypted.parms_id()", SKP, SKP + ".parms()", KCDS, KCDS + ".parms()", KCDS + ".parms().coeff_modulus()",
+                 SKP + ".parms().coeff_modulus().len()", KCDS + ".parms().coeff_modulus().len()"]}
 FRAGMENTS = [
     {"fn": "switch_key_inplace_internal", "lean": "switch_key_prologue", "kind": "prologue", "skeleton": SK_SWITCH_PROLOGUE, "model": "refusals of switchKey"},
     {"fn": "switch_key_inplace_internal", "lean": "switch_key_indices", "kind": "key_indices", "skeleton": SK_SWITCH_KEYIDX, "model": "keyIndex of ksAccumulate"},
@@ -433,6 +437,43 @@ def fragment_text(m, repo, ent):
     return sig + "{\n" + body + "\n}", line
 
 
+# ------------------------------------------------------------------------------------------------------------------------------------
+# `GaloisTool::apply_ntt` (src/util/galois.rs): the USE of the permutation table.  The function takes locks and fills the cache lazily (outside the accepted
+# subset; the cache discipline is property C17); translated is the statement range AFTER the statement `let <table> = &(*<guard>)[<index>];` (located by
+# its shape, the names are free) to the end of the function - the length assertion and the permutation `result[i] = operand[table[i]]` - as a function of
+# (operand, table, result) by the MAIN lowering of rs2lean.py (option `iters`).  TRUSTED: `<table>` is a parameter (a `&[usize]` read as `&[u64]`: 64-bit
+# target); that it IS `generate_table_ntt(galois_elt)` is the cache invariant of C17 (`tables[index]` is empty or that table; `index = get_index_from_elt`).
+UG = "src/util/galois.rs"
+RX_TABLE_LET = r"let\s+(\w+)\s*=\s*&\s*\(\s*\*\s*(\w+)\s*\)\s*\[\s*(\w+)\s*\]\s*;"
+
+
+def apply_ntt_fragment(m, tr):
+    import rs2lean_ctx as C
+    U = m.Unsupported; what = "fragment galois_apply_ntt_permute of fn apply_ntt"
+    src = m.strip_comments(open(m.os.path.join(tr.repo, UG)).read())
+    off, line = m.find_fn(src, "apply_ntt", UG)
+    j = src.index("{", off); end = m.brace_block(src, j, what)
+    blk = src[j + 1:end - 1]
+    st = C.split_stmts(blk, what, U)
+    texts = [blk[a:b] for a, b in st]
+    hits = [k for k, t in enumerate(texts) if re.match(RX_TABLE_LET, t)]
+    if len(hits) != 1: raise U(f"{what}: statement `let <table> = &(*<guard>)[<index>];` found {len(hits)} times")
+    k = hits[0]
+    if k + 1 >= len(texts): raise U(f"{what}: nothing after the table binding")
+    if blk[st[-1][1]:].strip(): raise U(f"{what}: the function ends with a value expression")
+    name = re.match(RX_TABLE_LET, texts[k]).group(1)
+    params = re.search(r"\(\s*&self\s*,\s*(\w+)\s*:\s*&\[u64\]\s*,\s*\w+\s*:\s*usize\s*,\s*(\w+)\s*:\s*&mut\s*\[u64\]\s*\)", src[off:j])
+    if not params: raise U(f"{what}: signature of apply_ntt is not (&self, <operand>: &[u64], <elt>: usize, <result>: &mut [u64])")
+    text = f"fn apply_ntt_permute(&self, {params.group(1)}: &[u64], {name}: &[u64], {params.group(2)}: &mut [u64]) {{\n" + "\n".join(texts[k + 1:]) + "\n}"
+    ln = line + blk.count("\n", 0, st[k + 1][0])
+    toks = m.tokenize(text, ln)
+    pf = m.Parser(toks, "apply_ntt").fn_item()
+    norm = " ".join(t[1] for t in toks)
+    pf.update({"file": UG, "line0": ln, "line1": ln + text.count("\n"), "hash": hashlib.sha256(norm.encode()).hexdigest()[:16], "norm": norm,
+               "selfty": "GaloisTool", "aliases": {}, "impl": "GaloisTool"})
+    return m.FnTranslate(tr, pf, {"iters": True, "lean": "galois_apply_ntt_permute", "abstract": [("self.coeff_count", "coeffCount", "Nat")]}).translate()
+
+
 SPEC = {"gal_mode": True, "ns": "GenGal", "imports": ["Heathcliff.Gen.GaloisFns", "Heathcliff.Gen.Word2Fns", "Heathcliff.Model.Scheme"], "table": TABLE, "fragments": FRAGMENTS}
 
 
@@ -440,7 +481,7 @@ def generate(m, tr, spec):
     U = m.Unsupported
     out = ["/- GENERATED by tools/rs2lean.py + tools/rs2lean_gal.py (via tools/extract.py) from src/evaluator.rs (plan skeletons of the rotation layer:",
            "   `rotate_internal`, `conjugate_internal`, `apply_galois_inplace`, the four public entry points; see the header of tools/rs2lean_gal.py) -- do not edit. -/"]
-    out += [f"import {x}" for x in spec["imports"]] + ["", "set_option linter.unusedVariables false", "", f"namespace HC.{spec['ns']}", "open HC", "", PRELUDE]
+    out += [f"import {x}" for x in spec["imports"]] + ["", "set_option linter.unusedVariables false", "", f"namespace HC.{spec['ns']}", "open HC", "open HC.GenW", "", PRELUDE]
     for ent in spec["table"]:
         what = f"rs2lean: {EV}: fn {ent['fn']} (plan mode)"
         try:
@@ -462,5 +503,8 @@ def generate(m, tr, spec):
             new = m.Skeleton(ft, ft.fn, ent["skeleton"]).run()
             out.append(PlanLower(m, new, what).run(ent["lean"]))
         except U as ex: raise U(f"{what}: {ex}" if what not in str(ex) else str(ex))
+    tr.cur_ns = spec["ns"]
+    try: out.append(apply_ntt_fragment(m, tr))
+    except U as ex: raise U(f"rs2lean: {UG}: {ex}")
     out += [f"end HC.{spec['ns']}", ""]
     return "\n".join(out)
